@@ -156,6 +156,10 @@ type expEnv struct {
 	Opener  source.Opener
 	Session *ir.Session
 	Exec    *incremental.Executor
+	// one Workspace object per target list: queries.Link's key contains the
+	// Workspace by identity, so a long-lived client must reuse it to be cached
+	ws     source.Workspace
+	wsKey  string
 }
 
 func newExpEnv(files map[string]string, par int) *expEnv {
@@ -222,11 +226,14 @@ func (o *expOut) firstError() string {
 // lower, cross-file symbol and extension-number checks).
 func (e *expEnv) runLink(ctx context.Context, targets []string) expOut {
 	var out expOut
+	if k := strings.Join(targets, "\x00"); e.ws == nil || e.wsKey != k {
+		e.ws, e.wsKey = source.NewWorkspace(append([]string(nil), targets...)...), k
+	}
 	pv, stack := vlib.Try(func() {
 		res, rep, err := incremental.Run(ctx, e.Exec, queries.Link{
 			Opener:    e.Opener,
 			Session:   e.Session,
-			Workspace: source.NewWorkspace(targets...),
+			Workspace: e.ws,
 		})
 		out.Report = rep
 		if err != nil {
